@@ -239,6 +239,88 @@ PROPS = {
                  'copy_MT traversal helpers not modelled step by step (covered through copy_unique + certificates)',
                  'int->float exactness beyond 2^24, long->int narrowing excluded by generator',
                  'F-C10-1/2/3 (see NOTES / known_findings proposal): generator steers away, probes reproduce']},
+    "C05": {
+        "title": "Element-wise arithmetic, comparison, min/max and user-defined maps are pointwise",
+        "theorems": CORE + APPLY + ["Meddly.Arith." + t for t in [
+            "arith_eval", "arith_error", "arith_error_iff", "arith_red", "arith_unique",
+            "unary_eval", "unary_red", "range_max_spec", "range_min_spec", "plus_zero_shortcut",
+            "plus_zero_left", "minus_self", "minus_self_unsound", "minus_inf_right_invalid", "mult_zero_left",
+            "mult_one_right", "mult_zero_inf_unsound", "div_self", "div_zero_left", "div_zero_zero_unsound",
+            "mod_self", "mod_inf_inf_unsound", "max_inf_right", "min_inf_right", "le_inf_right"]] + [
+            "Meddly.DD.applyE2_eval_top", "Meddly.DD.applyE2_error_iff", "Meddly.DD.applyE2_unique",
+            "Meddly.DD.applyE2_answer", "Meddly.DD.rangeFold_absorbs", "Meddly.DD.rangeFold_attained"],
+        # second run: minimal reproductions of the FINDINGS (harness/fam_arith.cc runProbes, cases 900000..);
+        # every probe case is a DIFF that the C05 entries of known_findings.jsonl turn into KNOWN-FINDING lines.
+        "quick": [fam("arith"), fam("arith", probe=1)],
+        "thorough": [fam("arith", "asan"), fam("arith", "asan", probe=1)],
+        "leanchecker": ["MeddlyModel.Ops.Arith"],
+        "design_ref": "DESIGN.md §5 C05",
+        "level_text": "Lean: Spec.Arith.scalar is the scalar semantics of the 14 binary operations (integer, real, EV+ with infinity; C++ / and %; DIST_MIN; comparisons typed by the result range), scalar1 of DIST_INC and the user maps, supportBin the accepted (operand, operand, result) kind triples with their error codes. Ops.Arith.applyE2 is the generic apply of a PARTIAL scalar operation over three forests with independent reduction rules; theorems for every domain / rule triple / operand pair: arith_eval (a result denotes the scalar operation at every assignment), arith_error + arith_error_iff (the model raises code e iff the scalar operation is invalid with some code at some assignment; e is the code of such an assignment), arith_red + arith_unique (the result is THE reduced diagram of the pointwise function), unary_eval/unary_red, range_max_spec/range_min_spec (upper bound and attained); applyE2_answer (a shortcut answer is right iff it is reduced and denotes the scalar operation on its sub-domain) with the catalogue of scalar identities behind every terminal shortcut (Shortcut algebra: plus_zero_*, minus_self, mult_one_*, div_self, max_inf_* ... and the *_unsound / *_invalid theorems that pin down the shortcuts whose identity fails: the FINDINGS). Tie: differential runs of the real PLUS MINUS MULTIPLY DIVIDE MODULO MAXIMUM MINIMUM DIST_MIN, six comparisons, DIST_INC, user_unary_factory maps, MAX_RANGE/MIN_RANGE over random domains (sets and relations), all rule triples and aliasing patterns, value kinds int-MT / real-MT / EV+ / EV*, operand scenarios aimed at each shortcut, cold and warm compute table, error cases (planted zero / infinity) raised twice with the operands re-read and the forests reused afterwards, rejected kind triples against the support table, result forests certified by Dump.check.",
+        "level_note": "The theorems are about the tree model (function values in the leaves); EV+ / EV* edge-value normal forms are not modelled (EV results are checked by table, recount and model evaluation of the dump). The library's terminal shortcuts are not modelled: they agree with the scalar rule except on the classes listed as FINDINGS (x/x, x%x, 0/x with zero divisors; inf-inf; EV+ MINUS with identity-reduced subtrahend forest; 0*inf; MAX/MIN_RANGE ignoring zeros; DIST_INC with identity-reduced argument or non-fully-reduced result; node leak after a raised error). The generator steers away from exactly these classes (counters steer.*), `--hidden 1` / `--probe 1` reproduce them. Reals: on an exactness-safe grid, compared with the library's own tolerance; integer overflow not exercised.",
+        "technique": "Lean 4 proof (induction on positions, Except-monad apply as corollary of apply2) + differential correspondence with the scalar oracle + support table + dump certificate",
+        "partial": ["EV+/EV* normal form not modelled (table-level check only)", "reals on the exactness grid; float rounding not modelled",
+                    "terminal shortcuts of arith_*.cc: scalar identities + the lifting criterion applyE2_answer are proved, the per-operation shortcut tables are not transcribed (covered differentially)",
+                    "64-bit / 31-bit overflow (VALUE_OVERFLOW) not exercised"],
+    },
+    "C09": {'title': 'One-step image and vector-matrix products follow the relational definition',
+     'theorems': ['Meddly.DD.canon',
+                  'Meddly.Dump.check_sound',
+                  'Meddly.Dump.unfold_inj',
+                  'Meddly.Dump.evalFast_eq_evalChild',
+                  'Meddly.DD.imageG_eval',
+                  'Meddly.DD.imageG_red',
+                  'Meddly.DD.imageG_unique',
+                  'Meddly.DD.imageDD_eval',
+                  'Meddly.DD.post_eval',
+                  'Meddly.DD.pre_eval',
+                  'Meddly.DD.imageDD_red',
+                  'Meddly.DD.imageDD_unique',
+                  'Meddly.DD.vmDD_eval',
+                  'Meddly.DD.vmDD_eval_sum',
+                  'Meddly.DD.mem_allAssign',
+                  'Meddly.DD.relFold_add_eq_sum',
+                  'Meddly.DD.distDD_eval',
+                  'Meddly.Img.post_iff',
+                  'Meddly.Img.pre_iff',
+                  'Meddly.Img.pre_eq_post_converse',
+                  'Meddly.Img.post_mono',
+                  'Meddly.Img.post_mono_rel',
+                  'Meddly.Img.post_union',
+                  'Meddly.Img.post_unionR',
+                  'Meddly.Img.post_empty',
+                  'Meddly.Img.post_emptyR',
+                  'Meddly.Img.pre_union',
+                  'Meddly.Img.post_closed'],
+     'quick': [{'family': 'image', 'flavor': 'plain', 'args': {}}],
+     'thorough': [{'family': 'image', 'flavor': 'asan', 'args': {}}],
+     'leanchecker': ['MeddlyModel.Ops.Image'],
+     'design_ref': 'DESIGN.md §5 C09',
+     'level_text': 'Lean model imageG of prepost_set_mtrel::_compute on trees (operand cofactor; relation cofactor at the unprimed then the primed position with '
+                   'redundant / identity expansion of skipped levels, i.e. rel_node::outgoing; accumulation over the operand index; createReducedNode of the '
+                   "result forest), generic in the template's arithmetic. imageG_eval: for EVERY domain, every operand tree, every relation tree of ANY rule "
+                   "(fully/quasi/identity), every result rule, forward and backward, the result's value at y is the accumulate-fold over all operand states x of "
+                   'combine(A x, R(x,y)). Instances: imageDD_eval/post_eval/pre_eval (y in result iff exists x in S with an edge), vmDD_eval(_sum) (sum over the '
+                   'shared index of the products), distDD_eval (1 + min over reachable neighbours, -1 if none). imageG_red + DD.canon => '
+                   "imageG_unique/imageDD_unique: any reduced edge of the result forest with that denotation IS the model's tree, which is how level-skipping "
+                   'shortcuts, terminal cases and the compute table of the C++ are covered. Img.*: algebra of post/pre on List-enumerated finite state spaces '
+                   '(monotone, distributes over unions, empty) for C08. Tie: differential runs of the real POST_IMAGE/PRE_IMAGE/VM_MULTIPLY/MV_MULTIPLY over '
+                   'random non-uniform domains (1..3 variables), every (set kind x relation rule x result kind) the factories accept plus the rejected ones '
+                   '(expected error code), MT boolean / MT integer distance / EV+ operands, integer and real vectors, structured relations (empty, identity, '
+                   "per-variable products with identity / don't-care / explicit levels interleaved, unions of events, partial diagonals, self loops, dead ends), "
+                   'cold and warm caches, result in the operand forest or a separate one, against the table-level relational specification (Spec/Image.lean); '
+                   'operands re-read; result forests audited with the verified certificate checker; results compared (==) with the same function rebuilt from '
+                   'minterms.',
+     'level_note': 'Theorems are about the Lean tree model; the C++ shortcuts (terminal copy for identity-reduced relations, C[i]=A[i]*B over skipped identity '
+                   'levels, Clevel=max(levels)+makeRedundantsTo, compute table) are not modelled step by step but subsumed by uniqueness of the reduced result; '
+                   'the tie to /repo is the sampled correspondence. EV+ is covered at table level only (edge-valued trees are not modelled); real products only on '
+                   'the exactness-safe grid; MT-integer results are compared up to the choice of the negative value when the operand carries several. Known '
+                   'findings F-A/F-B/F-C (NOTES.md) are canonical-form / misuse defects outside the function-level property: the generator is steered away from '
+                   'their triggers by default (--steer 0 and --mode probe reproduce them).',
+     'technique': 'Lean 4 proof (induction on the number of variables, generic in the accumulate/combine arithmetic) + canonicity => uniqueness + differential '
+                  'correspondence with the relational table oracle',
+     'partial': ['EV+ images: table-level oracle only (no edge-valued tree model)',
+                 'real-valued products on the dyadic grid only (float rounding not modelled)',
+                 'C++ level-skipping shortcuts covered through uniqueness, not as a refinement proof']},
 }
 
 NOT_YET = {}
